@@ -154,6 +154,7 @@ package elastic
 //@   ensures bwf(mb) && n == min(len(p), old(bcnt(mb))) && bcnt(mb) == old(bcnt(mb)) - n
 //@   ensures forall i :: 0 <= i && i < n ==> p[i] == old(bat(mb, i))
 //@   ensures forall i :: 0 <= i && i < bcnt(mb) ==> bat(mb, i) == old(bat(mb, n + i))
+//@   ensures mb.ringBuffer.rb == old(mb.ringBuffer.rb) || mb.ringBuffer.rb == nil
 //
 //@ func (mb *Buffer) Discard(n int) (discarded int, err error)
 //@   requires bwf(mb)
@@ -163,6 +164,7 @@ package elastic
 //@   modifies-each x *linkedlist.node where linkedlist.mine(mb.listBuffer, x) :: buf, next
 //@   ensures bwf(mb) && discarded == (n <= 0 ? 0 : min(n, old(bcnt(mb)))) && bcnt(mb) == old(bcnt(mb)) - discarded
 //@   ensures forall i :: 0 <= i && i < bcnt(mb) ==> bat(mb, i) == old(bat(mb, discarded + i))
+//@   ensures mb.ringBuffer.rb == old(mb.ringBuffer.rb) || mb.ringBuffer.rb == nil
 //
 //@ func (mb *Buffer) Write(p []byte) (n int, err error)
 //@   requires bwf(mb) && (mb.ringBuffer.rb == nil || disjoint(p, mb.ringBuffer.rb.buf))
@@ -173,6 +175,7 @@ package elastic
 //@   ensures bwf(mb) && n == len(p) && err == nil && bcnt(mb) == old(bcnt(mb)) + len(p)
 //@   ensures forall i :: 0 <= i && i < old(bcnt(mb)) ==> bat(mb, i) == old(bat(mb, i))
 //@   ensures forall j :: 0 <= j && j < len(p) ==> bat(mb, old(bcnt(mb)) + j) == p[j]
+//@   ensures mb.ringBuffer.rb == old(mb.ringBuffer.rb) || fresh(mb.ringBuffer.rb)
 //
 //@ func (mb *Buffer) ReadFrom(r io.Reader) (n int64, err error)
 //@   requires bwf(mb) && r != nil
@@ -183,6 +186,7 @@ package elastic
 //@   ensures bwf(mb) && n >= 0 && n == rpos[ref(r)] - old(rpos[ref(r)]) && bcnt(mb) == old(bcnt(mb)) + n
 //@   ensures forall i :: 0 <= i && i < old(bcnt(mb)) ==> bat(mb, i) == old(bat(mb, i))
 //@   ensures forall j :: 0 <= j && j < n ==> bat(mb, old(bcnt(mb)) + j) == rdata[ref(r)][old(rpos[ref(r)]) + j]
+//@   ensures mb.ringBuffer.rb == old(mb.ringBuffer.rb) || fresh(mb.ringBuffer.rb)
 //
 //@ func (mb *Buffer) WriteTo(w io.Writer) (n int64, err error)
 //@   requires bwf(mb) && w != nil
@@ -196,6 +200,7 @@ package elastic
 //@   ensures forall i :: i < old(wpos[ref(w)]) ==> wdata[ref(w)][i] == old(wdata[ref(w)])[i]
 //@   ensures old(bcnt(mb)) > 0 && !wfail[ref(w)] ==> err == nil && n == old(bcnt(mb))
 //@   ensures err == nil ==> n == old(bcnt(mb))
+//@   ensures mb.ringBuffer.rb == old(mb.ringBuffer.rb) || mb.ringBuffer.rb == nil
 //
 //@ func (mb *Buffer) Reset(maxStaticBytes int)
 //@   requires bwf(mb)
@@ -203,6 +208,7 @@ package elastic
 //@   modifies mb.listBuffer.*, lnodes[mb.listBuffer], lpoff[mb.listBuffer], lview[mb.listBuffer], npos[mb.listBuffer], nown, lbufs[mb.listBuffer]
 //@   modifies-each x *linkedlist.node where linkedlist.mine(mb.listBuffer, x) :: buf, next
 //@   ensures bwf(mb) && bcnt(mb) == 0
+//@   ensures mb.ringBuffer.rb == old(mb.ringBuffer.rb)
 //
 //@ func (mb *Buffer) Release()
 //@   requires bwf(mb)
@@ -210,3 +216,27 @@ package elastic
 //@   modifies mb.listBuffer.*, lnodes[mb.listBuffer], lpoff[mb.listBuffer], lview[mb.listBuffer], npos[mb.listBuffer], nown, lbufs[mb.listBuffer]
 //@   modifies-each x *linkedlist.node where linkedlist.mine(mb.listBuffer, x) :: buf, next
 //@   ensures bwf(mb) && bcnt(mb) == 0 && mb.ringBuffer.rb == nil
+//
+// Peek and Writev speak about the concatenation of [][]byte segments (abstract functions seglen / segbyte).
+// Their bodies are not verified (noverify): they are covered by the bounded stand-in bounded/elastic_peek_writev_test.go;
+// the clauses below are what callers may assume.
+//@ func (mb *Buffer) Peek(n int) (res [][]byte, err error)
+//@   noverify concatenation of [][]byte segments; covered by a bounded stand-in, not proved
+//@   requires bwf(mb)
+//@   ensures n > 0 && n != 2147483647 && n > bcnt(mb) ==> len(res) == 0 && err == io.ErrShortBuffer
+//@   ensures !(n > 0 && n != 2147483647 && n > bcnt(mb)) && bcnt(mb) <= 2147483647 ==> err == nil &&
+//@        seglen(res) == ((n <= 0 || n == 2147483647) ? bcnt(mb) : n) && (bcnt(mb) > 0 ==> len(res) >= 1)
+//@   ensures forall y :: 0 <= y && y < seglen(res) ==> segbyte(res, y) == bat(mb, y)
+//@   ensures len(res) == 0 || fresh(res)
+//
+//@ func (mb *Buffer) Writev(bs [][]byte) (n int, err error)
+//@   noverify concatenation of [][]byte segments; covered by a bounded stand-in, not proved
+//@   requires bwf(mb)
+//@   modifies mb.ringBuffer.rb, mb.ringBuffer.rb.* if mb.ringBuffer.rb != nil, mem(mb.ringBuffer.rb.buf) if mb.ringBuffer.rb != nil
+//@   modifies mb.listBuffer.*, lnodes[mb.listBuffer], lpoff[mb.listBuffer], lview[mb.listBuffer], npos[mb.listBuffer], nown, lbufs[mb.listBuffer]
+//@   modifies-each x *linkedlist.node where linkedlist.mine(mb.listBuffer, x) :: next
+//@   ensures bwf(mb) && n == seglen(bs) && err == nil && bcnt(mb) == old(bcnt(mb)) + seglen(bs)
+//@   ensures forall i :: 0 <= i && i < old(bcnt(mb)) ==> bat(mb, i) == old(bat(mb, i))
+//@   ensures forall y :: 0 <= y && y < seglen(bs) ==> bat(mb, old(bcnt(mb)) + y) == segbyte(bs, y)
+
+//@   ensures mb.ringBuffer.rb == old(mb.ringBuffer.rb) || fresh(mb.ringBuffer.rb)
